@@ -1,7 +1,7 @@
 """C17 - a failed computation is reported and cannot be mistaken for a result."""
 from .. import interrupt
 
-RULE = ("as C12, with failures instead of kills: OSError(ENOSPC) raised by DataFrame.to_csv (at creation and after a partial write), os.replace, "
+RULE = ("as C12, with failures instead of kills: OSError(ENOSPC) - at creations, renames and closes also PermissionError(EACCES) and OSError(EIO) - raised by DataFrame.to_csv (at creation and after a partial write), os.replace, "
         "h5py File create / create_dataset / Dataset.__setitem__ / flush / close of overlap and result files, RuntimeError in the k-th per-gene "
         "overlap step of a worker and in the k-th summation task of the merge, in the main process and in pool workers; single faults and "
         "pairs (two failed runs in a row). Each faulted run must exit non-zero (C17's first sentence: a theorem about the translated control flow, Props/C17code.v, and checked here on the real command line); "
